@@ -8,6 +8,18 @@ import traceback
 from . import core
 
 
+def _clean_stale_work():
+    """remove scratch directories of runs whose process is gone"""
+    import shutil
+    w = os.path.join(core.VERIF, ".work")
+    if not os.path.isdir(w):
+        return
+    for d in os.listdir(w):
+        pid = d.rsplit("-", 1)[-1]
+        if pid.isdigit() and not os.path.exists("/proc/%s" % pid):
+            shutil.rmtree(os.path.join(w, d), ignore_errors=True)
+
+
 def main():
     ap = argparse.ArgumentParser()
     ap.add_argument("prop")
@@ -23,6 +35,7 @@ def main():
                 d = json.load(f)
             rc = drv.replay(d)
             sys.exit(rc)
+        _clean_stale_work()
         ctx = core.Ctx(a.prop, a.tier, a.seed)
         rc = drv.run(ctx)
         sys.exit(rc)
